@@ -28,6 +28,28 @@ def new_report(tier):
        "Equality of events/messages/positions between the three variants of an input is behavioural and not decided.")
 
 
+def _mentions_field(e, name):
+    if not isinstance(e, tuple) or not e:
+        return False
+    if e[0] == "place":
+        if any(isinstance(x, tuple) and x[0] == "field" and x[1] == name for x in e[2]):
+            return True
+        return _mentions_field(e[1], name)
+    if e[0] in ("bin",):
+        return _mentions_field(e[2], name) or _mentions_field(e[3], name)
+    if e[0] in ("un", "cast"):
+        return _mentions_field(e[2], name)
+    if e[0] == "ref":
+        return _mentions_field(e[1], name)
+    if e[0] == "call":
+        return any(_mentions_field(a, name) for a in e[2])
+    return False
+
+
+def _mentions_index(e):
+    return _mentions_field(e, "index")
+
+
 def brk(c):
     v = const_value(c) if c else None
     if isinstance(v, tuple) and v[0] == "char" and v[1] in (LF, CR):
@@ -99,8 +121,8 @@ def run(tier):
                 rep.incomplete("cannot fold %s: %s" % (k, ex), f.span)
                 continue
             rep.check((LF in tab) == (CR in tab), "predicate-symmetry", short(k), "a character predicate distinguishes '\\n' from '\\r'", site=f.span)
-    rep.floor("character predicates folded", npred, 15)
-    rep.floor("matches on a character that mention a break", n_switch, 2)
+    rep.floor("character predicates folded", npred, 12)
+    rep.floor("matches on a character that mention a break", n_switch, 1)
     # shape of the two recognisers
     sb = F.fn(S + "skip_break")
     calls = [ck for _, _, ck, _ in sb.calls() if ck and ck.startswith(S)]
@@ -148,8 +170,41 @@ def run(tier):
             rep.check(bool(ctxs) and all(lb >= 2 for lb, ub in ctxs), "break-lookahead", "%s@B=%d" % (short(fk), B),
                       "a break helper is entered with fewer than two characters buffered in some context: a CR LF pair cannot be recognised (and the buffered input panics)",
                       site=F.fns[fk].span, detail={"contexts": len(ctxs), "min_lb": min([lb for lb, ub in ctxs] or [0])})
+    # (e) character indices may not steer control flow across line breaks: an ordering comparison of Marker.index values is only
+    # allowed where both marks are known to be on the same line (there index distance = column distance, which CR LF does not change);
+    # equality with a recorded index is independent of the break style.
+    n_idx = 0
+    for k, f in sorted(F.fns.items()):
+        if f.crate != "saphyr_parser" or "::test" in k or f.d.get("derived"):
+            continue
+        for bi, b in enumerate(f.blocks):
+            if b["cleanup"] or b["term"]["k"] != "switch":
+                continue
+            e = cfg.expr_operand(f, b["term"]["discr"], 8)
+            while e[0] == "un" and e[1] == "Not":
+                e = e[2]
+            if e[0] != "bin" or e[1] not in ("Lt", "Le", "Gt", "Ge"):
+                continue
+            if not (_mentions_index(e[2]) or _mentions_index(e[3])):
+                continue
+            n_idx += 1
+            same_line = False
+            for b2 in f.dominators().get(bi, ()):
+                t2 = f.blocks[b2]["term"]
+                if b2 == bi or t2["k"] != "switch":
+                    continue
+                e2 = cfg.expr_operand(f, t2["discr"], 8)
+                if e2[0] == "bin" and e2[1] in ("Lt", "Gt", "Ne", "Eq") and _mentions_field(e2[2], "line") and _mentions_field(e2[3], "line"):
+                    m, other = cfg.switch_edge_blocks(f, b2)
+                    tg = other if e2[1] == "Eq" else m.get(0)
+                    if tg is not None and cfg.dominated_by_edge(f, bi, b2, tg):
+                        same_line = True
+            rep.check(same_line, "index-ordering-same-line", short(k),
+                      "an ordering comparison of character indices is evaluated without a guard that both positions are on the same line: the number of "
+                      "characters a line break occupies (1 for LF/CR, 2 for CR LF) now changes control flow", site=site(f, b["term"]["sp"]), detail=cfg.expr_str(e))
+    rep.extra["index_ordering_comparisons"] = n_idx
     # (d) normalisation
-    rep.floor("constant break pushes into scalar text", len(push_consts), 4)
+    rep.floor("constant break pushes into scalar text", len(push_consts), 3)
     for k, r, sp in push_consts:
         rep.check(r == LF, "normalised-push", short(k), "a constant '\\r' is pushed into scalar text (breaks must be reported as line feeds)", site=site(F.fns[k], sp))
     return rep
